@@ -45,7 +45,7 @@ def decode(data):
         n = [1, 2, 3, 8, 20, 40][fdp.ConsumeIntInRange(0, 5)]
         nf = fdp.ConsumeIntInRange(1, 4)
         c = {"kind": "trr", "natoms": n, "endian": ">" if fdp.ConsumeBool() else "<", "double": fdp.ConsumeBool(), "with_v": fdp.ConsumeBool(),
-             "with_f": fdp.ConsumeBool(), "with_box": fdp.ConsumeBool(), "exit_with_last": fdp.ConsumeBool(), "frames": []}
+             "with_f": fdp.ConsumeBool(), "with_box": fdp.ConsumeBool(), "exit_with_last": fdp.ConsumeBool(), "exit_in_poll": [None, None, 1, 2, 3, 5][fdp.ConsumeIntInRange(0, 5)], "frames": []}
         if fdp.ConsumeBool():
             c["v_on"] = [fdp.ConsumeBool() for _ in range(nf)]
         if fdp.ConsumeBool():
@@ -88,7 +88,7 @@ def one(c, work):
         offs, sched = schedule(c, len(data))
         sched = [max(1, o) for o in offs]
         path = os.path.join(work, "t.trr")
-        got, live, exc = C13.drive_trr(data, sched, path, exit_with_last=c.get("exit_with_last", False))
+        got, live, exc = C13.drive_trr(data, sched, path, exit_with_last=c.get("exit_with_last", False), exit_in_poll=c.get("exit_in_poll"), ends=ends)
         info = f"[fuzz] trr natoms={c['natoms']} frames={len(want)} endian={c['endian']} double={c['double']} v={c['with_v']} f={c['with_f']} box={c['with_box']} schedule={sched} file_len={len(data)}"
         if exc:
             raise Violation(f"trr:reader-raises-on-partial-frame:{exc[0]}", f"{exc[1]} at prefix {exc[2]}; {info}")
